@@ -206,3 +206,9 @@ package inference
 //@ func (*UndeterminedVal).copy$1
 //@ inline
 //@ loop 0 invariant out-ok (and (omOK out) (fresh out))
+
+//@ -- C04/C03: dependency facts are replayed in an order that is a total order on distinct packages: the comparator
+//@ -- is zero exactly for equal import paths (two facts of one run never share an import path)
+//@ func (*Engine).ObserveUpstream$1
+//@ prop C04 C03
+//@ ensures orders-by-import-path (= (= result 0) (= (pkgpath (. i Package)) (pkgpath (. j Package))))
